@@ -40,6 +40,10 @@ def T(v):
     return iterm(v)
 
 
+_FIELD_MEMO = {}
+rt.PATH_RESET_HOOKS.append(_FIELD_MEMO.clear)
+
+
 class FixedTz(datetime.tzinfo):
     """concrete tzinfo with a fixed offset (whole minutes) and an arbitrary (possibly None) name"""
 
@@ -89,6 +93,11 @@ class SymTz(Sym):
 def _fresh_fields(kind, total, lo_year=1, hi_year=9999, date=True):
     """fresh civil fields whose linear value equals `total`; model extended by computing the values in Python"""
     eng = E()
+    total = z3.simplify(total)
+    mk = (total.get_id(), date)
+    hit = _FIELD_MEMO.get(mk)
+    if hit is not None:
+        return hit[1]           # the same instant decomposed again on this path: identical field variables
     if date:
         names = ("y", "mo", "d", "H", "M", "S", "us")
     else:
@@ -120,6 +129,7 @@ def _fresh_fields(kind, total, lo_year=1, hi_year=9999, date=True):
                 eng.model.update_value(v, z3.IntVal(val))
         except (OverflowError, z3.Z3Exception, AttributeError):
             eng.model = None
+    _FIELD_MEMO[mk] = (total, tuple(vs))
     return tuple(vs)
 
 
